@@ -51,6 +51,19 @@ fn check_state_protocol(ctx: &Ctx, judgements: &[DocJudgement], out: &mut Vec<Vi
                 if let Some((pn, pp)) = prev {
                     let ended = pp.exit.is_some() && pp.exit_seq < p.spawn_seq;
                     let killed = pp.killed.map(|k| k.2 < p.spawn_seq).unwrap_or(false);
+                    // ... and when that shell was ended by a signal before it could write the state
+                    // (SIGKILL from outside: no EXIT trap), what it changed is gone - a single
+                    // session would be over; starting the next test case shows it a state from
+                    // before its predecessor
+                    let died_without_trap = pp.exit.as_ref().map(|e| e.1.starts_with("sig:") && !e.2).unwrap_or(false) && pp.killed.is_none();
+                    if died_without_trap && pp.faults.is_empty() && pp.template.as_ref().map(|t| t.1 == Some(1)).unwrap_or(false) {
+                        out.push(v(
+                            "C12",
+                            "state-not-carried",
+                            Some(&t.nonce),
+                            format!("test {} was started although the shell of test {} had been killed before it could write its state", t.nonce, pn),
+                        ));
+                    }
                     if !ended && !killed && pp.faults.is_empty() {
                         out.push(v(
                             "C12",
